@@ -36,7 +36,8 @@ def gen_names(rng, n, style=None):
 
 def simple_family(rng, n):
     """dict {(a,b): mult} with a<b; connected; named families"""
-    kinds = ["tree", "cycle", "complete", "star", "path", "bip", "banana", "dtri", "wheel", "dumbbell", "rand", "rand", "rand", "randmulti", "randmulti"]
+    kinds = ["tree", "cycle", "complete", "star", "path", "bip", "banana", "dtri", "wheel", "dumbbell", "rand", "rand", "rand", "randmulti", "randmulti",
+             "multicycle", "multicycle", "multitree", "thick"]
     kind = rng.choice(kinds)
     E = {}
 
@@ -80,6 +81,26 @@ def simple_family(rng, n):
         for i in range(1, n):
             add(0, i)
             add(i, 1 + (i % (n - 1)))
+    elif kind == "multicycle":
+        # cycle with multiplicities, often alternating (a,b,a,b,...): same valences, different multiplicities
+        a_, b_ = rng.randint(1, 3), rng.randint(1, 3)
+        alt = rng.random() < 0.6
+        for i in range(n):
+            add(i, (i + 1) % n, (a_ if i % 2 == 0 else b_) if alt else rng.randint(1, 3))
+    elif kind == "multitree":
+        perm = list(range(n))
+        rng.shuffle(perm)
+        for i in range(1, n):
+            add(perm[rng.randrange(i)], perm[i], rng.randint(1, 4))
+    elif kind == "thick":
+        m = rng.randint(2, 3)
+        perm = list(range(n))
+        rng.shuffle(perm)
+        for i in range(1, n):
+            add(perm[rng.randrange(i)], perm[i], m)
+        for _ in range(rng.randint(0, 2)):
+            a, b = rng.sample(range(n), 2)
+            add(a, b, m)
     elif kind == "dumbbell":
         h = n // 2
         for a in range(h):
@@ -151,6 +172,22 @@ def gen_graph(rng, nmin=2, nmax=6, names=True):
         rng.shuffle(order)
         scn["vlist"] = order
         scn["vaslist"] = rng.random() < 0.3
+    if rng.random() < 0.12 and len(scn["edges"]) >= 2:
+        # ask once on a (connected) prefix of the edges, insert the rest into the same object, ask again
+        comp = list(range(n))
+
+        def find(x):
+            while comp[x] != x:
+                x = comp[x]
+            return x
+        kmin = None
+        for i, (a, b, _) in enumerate(scn["edges"]):
+            comp[find(a)] = find(b)
+            if len({find(v) for v in range(n)}) == 1:
+                kmin = i + 1
+                break
+        if kmin is not None and kmin < len(scn["edges"]):
+            scn["warmup"] = rng.randint(kmin, len(scn["edges"]) - 1)
     return scn, E
 
 
